@@ -7,6 +7,8 @@ import Sourcer.Proofs.Spans
 import Sourcer.Proofs.Bounded
 import Sourcer.Api
 import Sourcer.Proofs.ObjectsProofs
+import Sourcer.Proofs.WalkProofs
+import Sourcer.Proofs.TransformProofs
 /-
   Property theorems (statements only; proofs are one-liners over Sourcer/Proofs/*).
   Every theorem is followed by an `example` showing its hypotheses are met by a concrete,
@@ -602,5 +604,102 @@ example : peq (.obj 1 [.int 1, .list [.str [97], .dict [(.str [98], .bool true)]
     = true := by rfl
 
 end C14
+
+/-! ## C15 – visit and traverse -/
+
+section C15
+open Walk
+
+/-- `visit` (the explicit-stack loop) yields exactly the recursive depth-first pre-order of the
+    parsed objects, a shared object only where it is met first – for arbitrary sharing -/
+theorem C15_visit_eq_first_occurrence_preorder (t : T) : visit t = (dfs t []).1 :=
+  visit_eq_dfs t
+
+/-- no object is yielded twice, and only reachable parsed objects are yielded -/
+theorem C15_visit_at_most_once (t : T) : (visit t).Nodup ∧ ∀ y ∈ visit t, y ∈ objIds t := by
+  rw [visit_eq_dfs]
+  exact ⟨(dfs_good t []).nodup, (dfs_good t []).only⟩
+
+/-- without sharing, `visit` yields every reachable parsed object exactly once, parents before
+    children and siblings left to right (`objIds` is that order by definition) -/
+theorem C15_visit_complete (t : T) (h : (objIds t).Nodup) : visit t = objIds t := by
+  rw [visit_eq_dfs]
+  exact dfs_complete t [] h (by simp)
+
+/-- `traverse` (the explicit-stack loop) emits exactly the events of the recursive specification:
+    one entering and one finished event per root / field / element / entry occurrence, nested
+    depth first and left to right, equal or identical leaves included; a shared container or
+    object is expanded only where it is met first -/
+theorem C15_traverse_events (t : T) : traverse t = (walk none none t []).1 :=
+  traverse_eq_walk t
+
+/-- every occurrence contributes its entering event first and its finished event last -/
+theorem C15_traverse_brackets (p f : Option Nat) (t : T) (V : List Nat) :
+    ∃ mid, (walk p f t V).1 = ⟨p, f, t.id, false⟩ :: mid ++ [⟨p, f, t.id, true⟩] := by
+  obtain ⟨k, id, cs⟩ := t
+  simp only [walk, T.id]
+  split
+  · exact ⟨[], rfl⟩
+  · split
+    · exact ⟨[], rfl⟩
+    · exact ⟨_, rfl⟩
+
+-- non-vacuity: an object with a repeated identical leaf (id 1) and a shared child object (id 7)
+def exT : T :=
+  .mk .obj 5 [(0, .mk .leaf 1 []), (1, .mk .obj 7 [(0, .mk .leaf 1 [])]),
+              (2, .mk .list 9 [(0, .mk .obj 7 [(0, .mk .leaf 1 [])]), (1, .mk .leaf 1 [])])]
+example : visit exT = [5, 7] := by rfl
+example : (traverse exT).length = 14 := by rfl
+
+end C15
+
+/-! ## C16 – transform -/
+
+section C16
+open Tr
+
+/-- every object occurrence reachable through fields and lists is passed to every callback
+    exactly once -/
+theorem C16_once_per_node (cbs : List Cb) (v : V) :
+    (tr cbs v).2.2.length = cbs.length * objCount v := tr_log_length cbs v
+
+/-- children before parents, siblings left to right: the first callback sees the occurrences in
+    post-order (each one already rebuilt from its transformed children, by definition of `tr`) -/
+theorem C16_bottom_up (f : Cb) (fs : List Cb) (v : V) :
+    firstTags (tr (f :: fs) v).2.2 = postTags v := tr_order f fs v
+
+/-- with callbacks that return their argument, the result equals the input -/
+theorem C16_identity (cbs : List Cb) (h : AllId cbs) (v : V) : (transform cbs v).1 = v := by
+  unfold transform
+  split
+  · rfl
+  · exact tr_id cbs h v
+
+/-- a replacement object without metadata of its own carries the metadata of the node it stands
+    for; one that has metadata keeps it; a non-object replacement is taken as it is -/
+theorem C16_metadata (c t : Nat) (fs : List V) (pm : Option Nat) (c' t' : Nat) (fs' : List V) :
+    adopt (.obj c t fs pm) (.obj c' t' fs' none) = .obj c' t' fs' pm ∧
+    (∀ m, adopt (.obj c t fs pm) (.obj c' t' fs' (some m)) = .obj c' t' fs' (some m)) ∧
+    (∀ k, adopt (.obj c t fs pm) (.leaf k) = .leaf k) := by
+  refine ⟨rfl, fun m => rfl, fun k => rfl⟩
+
+/-- a copy made because a child changed keeps class, tag and position metadata of the node -/
+theorem C16_copy_keeps_metadata (cbs : List Cb) (h : AllId cbs) (c t : Nat) (fs : List V) (pm : Option Nat) :
+    (tr cbs (.obj c t fs pm)).1 = .obj c t (trList cbs fs).1 pm := by
+  simp only [tr]
+  exact (applyCbs_id cbs 0 _ h).1
+
+/-- leaves pass through unchanged, lists are rebuilt element-wise -/
+theorem C16_leaves_and_lists (cbs : List Cb) (k : Nat) (xs : List V) :
+    (tr cbs (.leaf k)).1 = .leaf k ∧ (tr cbs (.list xs)).1 = .list (trList cbs xs).1 := ⟨rfl, rfl⟩
+
+-- non-vacuity: a callback that replaces class 2 by a metadata-less object of class 3
+def exCb : Cb := fun v => match v with
+  | .obj 2 t fs _ => some (.obj 3 t fs none)
+  | _ => none
+example : (transform [exCb] (.obj 1 10 [.list [.obj 2 11 [.leaf 5] (some 7)]] (some 4))).1
+    = .obj 1 10 [.list [.obj 3 11 [.leaf 5] (some 7)]] (some 4) := by rfl
+
+end C16
 
 end Sourcer
